@@ -230,6 +230,53 @@ def rule_pairing(ctx):
         ok = len(c.generators) == 2 and norm(c.generators[0].iter).replace('"', "'") == "kwargs['matches']" and norm(c.generators[1].iter) == "%s[1]" % norm(c.generators[0].target) \
             and norm(c.elt).replace(" ", "") == "[%s[0],%s]" % (norm(c.generators[0].target), norm(c.generators[1].target))
     ctx.ob("Collocator._process_caller.flat", ok, "%s" % (norm(ms[0].value) if ms else None), "[[match[0], secondary] for match in matches for secondary in match[1]] (primary-major)", node=ms[0] if ms else f.node, func=f)
+    # which two files a result belongs to: align(skip_errors=True) yields NOTHING for a pair with an unreadable file, so the k-th result is not
+    # the k-th entry of the flat list - the files must travel with the result
+    flow_pc = Flow(f)
+    def from_cm(it_):
+        if calls_in(it_, "_collocate_matches"):
+            return True
+        for n_ in ast.walk(it_):
+            if isinstance(n_, ast.Name):
+                sd_ = flow_pc.single_def_value(n_.id, it_)
+                if sd_ and calls_in(sd_[0], "_collocate_matches"):
+                    return True
+        return False
+    lp_pc = [st for st in flow_pc.stmts if isinstance(st, ast.For) and from_cm(st.iter)]
+    if len(lp_pc) != 1:
+        raise AnalysisError("_process_caller: the loop over _collocate_matches(...) was not found")
+    tnames = [n_.id for n_ in ast.walk(lp_pc[0].target) if isinstance(n_, ast.Name)]
+    n_result = len(tnames) - (1 if calls_in(lp_pc[0].iter, "enumerate") else 0)
+    # the file pair: what is handed to _should_save_cache as `match`
+    ssc = ctx.func(COL, "Collocator._should_save_cache")
+    from ..calls import bind_args
+    pair_args = []
+    for c_ in calls_in(lp_pc[0], "_should_save_cache"):
+        b_ = bind_args(c_, ssc)
+        if b_.get("match") is not None:
+            pair_args.append((b_["match"], c_))
+    if not pair_args:
+        raise AnalysisError("_process_caller: the file pair handed to _should_save_cache was not found")
+    from_result, indexed = True, []
+    for e_, at_ in pair_args:
+        r_ = flow_pc.resolve(e_, at=at_, depth=3, stop=tuple(tnames) + ("matches",))
+        if isinstance(r_, ast.Name) and r_.id in tnames:
+            continue
+        from_result = False
+        if isinstance(r_, ast.Subscript) and str(norm(r_.value)) == "matches":
+            indexed.append(str(norm(r_)))
+        else:
+            raise AnalysisError("_process_caller: where the file pair %s of a result comes from was not understood" % str(norm(r_))[:60])
+    mnames = {str(norm(e_)) for e_, _ in pair_args}
+    g_cm = ctx.func(COL, "Collocator._collocate_matches")
+    ys_cm = [n_ for n_ in walk_no_nested(g_cm.node) if isinstance(n_, ast.Yield) and isinstance(n_.value, ast.Tuple)]
+    three = bool(ys_cm) and all(len(y_.value.elts) == n_result for y_ in ys_cm) and len({str(norm(y_.value.elts[-1])) for y_ in ys_cm}) == 1
+    ctx.ob("Collocator._process_caller.match_of_result", from_result and three, "file pair of a result: %s; _collocate_matches yields %s" % (
+        ("loop variable %s" % sorted(mnames)) if from_result else indexed, sorted({str(norm(y_.value)) for y_ in ys_cm})),
+        "the two files are yielded WITH each result (also with a None result): `matches[processed]` drifts as soon as align skips a pair with an unreadable file - "
+        "the bundle tag then comes from another pair, one primary is flushed as two bundles of the same name and the second overwrites the first",
+        node=lp_pc[0], func=f, witness=None if (from_result and three) else {"skip_file_errors": True, "bundle": "primary", "unreadable": "the first primary file",
+                                                                          "written": "2 of the 4 collocations of the second primary"})
     a = ctx.func(FILESET, "FileSet.align")
     outer = [st for st in walk_no_nested(a.node) if isinstance(st, ast.For) and calls_in(st.iter, "enumerate")]
     if not outer:
@@ -337,7 +384,7 @@ def run(ctx):
     # directory pruning, exclusion, path state) and the interval tree it queries (C03)
     from . import C04, C01
     from .C03 import tree_rules
-    for r in (C04.rule_empty, C04.rule_temporal, C04.rule_window, C04.rule_nan, C04.rule_swap, C04.rule_offsets, C04.rule_cache, C04.rule_interval,
+    for r in (C04.rule_empty, C04.rule_temporal, C04.rule_window, C04.rule_nan, C04.rule_swap, C04.rule_offsets, C04.rule_cache, C04.rule_interval, C04.rule_thresholds,
               C01.rule_semiopen, C01.rule_prune, C01.rule_exclude, C01.rule_pathstate):
         ctx.attempt(r, ctx)
     tree_rules(ctx, which=("pred", "partition", "descent_q", "scan_q", "early_q", "rows", "empty", "extent", "api"))
